@@ -190,6 +190,8 @@ func checkC11(c *Ctx) {
 	c.headerTypeCheck()
 	// what is authenticated is what this connection sent
 	c.connectDecodedIntoFreshMessage()
+	// the flag byte: refused exactly when section 3.1.2 calls it malformed
+	c.connectFlagRefusals()
 }
 
 // closeOnRefusal: P6 - every return without a service carries a non-nil error, and
